@@ -1075,7 +1075,12 @@ func getFiles(directory string) ([]string, error) {
 	var files []string
 	err := filepath.Walk(directory, func(path string, info os.FileInfo, err error) error {
 		if err != nil {
-			return err
+			if path == directory {
+				return err
+			}
+			// an unreadable entry below the root only hides itself
+			Log("Skipping unreadable path:", err)
+			return nil
 		}
 		if !info.IsDir() {
 			// append only java files
